@@ -32,6 +32,11 @@ theorem envelope_alloc_bound (bs : Bytes) :
 theorem frame_alloc_bound (bs : Bytes) : frameAlloc bs ≤ 5 * bs.length + fastPathFrameSize + 1024 :=
   ThriftVerif.Wire.frame_alloc_bound bs
 
+/-- The same for every threshold (the harness lowers it to reach the copying path with short inputs). -/
+theorem frame_alloc_bound_any_threshold (thr : Nat) (bs : Bytes) :
+    frameAllocT thr bs ≤ 5 * bs.length + thr + 1024 :=
+  ThriftVerif.Wire.frame_alloc_boundT thr bs
+
 /-- Work: the strict decoder's recursion never exceeds `3·N + 3` nested steps on any input
 (each step consumes a byte or stops) — the fuel bound of C03.decode_total. -/
 theorem steps_linear (t : UInt8) (bs : Bytes) : decode t bs ≠ .error .fuel ∧ fuelFor bs = 3 * bs.length + 3 :=
